@@ -66,14 +66,34 @@ func family(a cryptoref.Alg, known bool) string {
 	return "unsupported"
 }
 
+// blockLens are the message lengths: around the AES block boundaries (quick),
+// every length 0..34 and the next two boundaries (thorough).
 var blockLens = []int{0, 1, 15, 16, 17, 31, 32, 33}
+
+func setLens(thorough bool) {
+	if !thorough {
+		return
+	}
+	blockLens = blockLens[:0]
+	for i := 0; i <= 34; i++ {
+		blockLens = append(blockLens, i)
+	}
+	blockLens = append(blockLens, 47, 48, 49, 63, 64, 65)
+}
 
 func ptLensFor(a cryptoref.Alg) (valid, invalid []int) {
 	switch a.Class {
 	case cryptoref.CBCNoPad:
-		return []int{0, 16, 32}, []int{1, 15, 17, 33}
+		for _, n := range blockLens {
+			if n%16 == 0 {
+				valid = append(valid, n)
+			} else {
+				invalid = append(invalid, n)
+			}
+		}
+		return valid, invalid
 	case cryptoref.KW:
-		return []int{16, 24, 40}, []int{0, 8, 15, 17}
+		return []int{16, 24, 32, 40}, []int{0, 8, 15, 17}
 	}
 	return blockLens, nil
 }
@@ -97,7 +117,6 @@ func padScenario(id string, buf []byte, size int, role string) *scenario {
 				return result(err, []string{"padded"}, out)
 			})
 		},
-		expect: "any",
 	}
 }
 
@@ -119,7 +138,6 @@ func paddingScenarios() (out []*scenario) {
 				})
 			},
 			mayAlias: map[string]bool{"buf": true}, // contract: returns a sub-slice of its input
-			expect:   "any",
 		}
 	}
 	for _, size := range []int{16, 8} {
@@ -161,7 +179,6 @@ func wrapScenario(id string, kek, cek []byte, role string) *scenario {
 				return result(err, []string{"wrapped"}, out)
 			})
 		},
-		expect: "any",
 	}
 }
 
@@ -179,7 +196,6 @@ func unwrapScenario(id string, kek, wrapped []byte, role string) *scenario {
 				return result(err, []string{"unwrapped"}, out)
 			})
 		},
-		expect: "any",
 	}
 }
 
@@ -251,7 +267,7 @@ var dstVariants = []string{dstNil, dstEmpty, dstPrefix, dstInPlace}
 // sealScenario: args are (dst), nonce, plaintext, aad, key - the constructor is
 // part of the call, so the AEAD's key material lives in the arena as well.
 func sealScenario(id string, c ctor, key, nonce, pt, aad []byte, dv string) *scenario {
-	sc := &scenario{id: id, site: "aescbcaead.Seal", fn: "aescbcaead." + c.name + ".Seal", expect: "any"}
+	sc := &scenario{id: id, site: "aescbcaead.Seal", fn: "aescbcaead." + c.name + ".Seal"}
 	ptArg := in("plaintext", pt)
 	switch dv {
 	case dstNil:
@@ -293,7 +309,7 @@ func sealScenario(id string, c ctor, key, nonce, pt, aad []byte, dv string) *sce
 }
 
 func openScenario(id string, c ctor, key, nonce, ct, aad []byte, dv string) *scenario {
-	sc := &scenario{id: id, site: "aescbcaead.Open", fn: "aescbcaead." + c.name + ".Open", expect: "any"}
+	sc := &scenario{id: id, site: "aescbcaead.Open", fn: "aescbcaead." + c.name + ".Open"}
 	ctArg := in("ciphertext", ct)
 	switch dv {
 	case dstNil:
@@ -395,7 +411,7 @@ func symEncryptScenario(entry string, c symCase, n int) *scenario {
 	ref, known := cryptoref.Lookup(c.alg)
 	known = known && ref.Symmetric()
 	id := fmt.Sprintf("crypto.%s|%s|%s|len=%d", entry, c.alg, c.path, n)
-	sc := &scenario{id: id, site: entry + "-" + family(ref, known), fn: "crypto." + entry, expect: "any"}
+	sc := &scenario{id: id, site: entry + "-" + family(ref, known), fn: "crypto." + entry}
 	sc.args = []arg{in("plaintext", c.data), in("key", c.key), in("nonce", c.nonce), in("aad", c.aad)}
 	if c.aad == nil {
 		sc.args[3] = nilArg("aad")
@@ -437,7 +453,7 @@ func symDecryptScenario(entry string, c symCase, n int) *scenario {
 	ref, known := cryptoref.Lookup(c.alg)
 	known = known && ref.Symmetric()
 	id := fmt.Sprintf("crypto.%s|%s|%s|len=%d", entry, c.alg, c.path, n)
-	sc := &scenario{id: id, site: entry + "-" + family(ref, known), fn: "crypto." + entry, expect: "any"}
+	sc := &scenario{id: id, site: entry + "-" + family(ref, known), fn: "crypto." + entry}
 	sc.args = []arg{in("ciphertext", c.data), in("key", c.key), in("nonce", c.nonce), in("tag", c.tag), in("aad", c.aad)}
 	if c.aad == nil {
 		sc.args[4] = nilArg("aad")
@@ -585,7 +601,7 @@ func asymScenarios() (out []*scenario) {
 	names := append(append([]string{}, kit.SupportedAsymmetricAlgorithms()...), kit.Algorithm_ECDH_ES, "NOPE-ALG")
 	var enc func(entry, alg, path string, key jwk.Key, pt, lbl []byte, fam string) *scenario
 	enc = func(entry, alg, path string, key jwk.Key, pt, lbl []byte, fam string) *scenario {
-		sc := &scenario{id: fmt.Sprintf("crypto.%s|%s|asym:%s|len=%d", entry, alg, path, len(pt)), site: entry + "-" + fam, fn: "crypto." + entry, expect: "any"}
+		sc := &scenario{id: fmt.Sprintf("crypto.%s|%s|asym:%s|len=%d", entry, alg, path, len(pt)), site: entry + "-" + fam, fn: "crypto." + entry}
 		sc.args = []arg{in("plaintext", pt), in("label", lbl), in("nonce", data("nonce", 12))}
 		if lbl == nil {
 			sc.args[1] = nilArg("label")
@@ -607,7 +623,7 @@ func asymScenarios() (out []*scenario) {
 	}
 	var dec func(entry, alg, path string, key jwk.Key, ct, lbl []byte, fam string, n int) *scenario
 	dec = func(entry, alg, path string, key jwk.Key, ct, lbl []byte, fam string, n int) *scenario {
-		sc := &scenario{id: fmt.Sprintf("crypto.%s|%s|asym:%s|len=%d", entry, alg, path, n), site: entry + "-" + fam, fn: "crypto." + entry, expect: "any"}
+		sc := &scenario{id: fmt.Sprintf("crypto.%s|%s|asym:%s|len=%d", entry, alg, path, n), site: entry + "-" + fam, fn: "crypto." + entry}
 		sc.args = []arg{in("ciphertext", ct), in("label", lbl), in("nonce", data("nonce", 12)), in("tag", data("tag", 16))}
 		if lbl == nil {
 			sc.args[1] = nilArg("label")
@@ -691,7 +707,7 @@ func sigScenarios() (out []*scenario) {
 	}
 	sign := func(alg, path string, key jwk.Key, d []byte, fam string) *scenario {
 		return &scenario{
-			id: fmt.Sprintf("crypto.SignPrivateKey|%s|%s|len=%d", alg, path, len(d)), site: "SignPrivateKey-" + fam, fn: "crypto.SignPrivateKey", expect: "any",
+			id: fmt.Sprintf("crypto.SignPrivateKey|%s|%s|len=%d", alg, path, len(d)), site: "SignPrivateKey-" + fam, fn: "crypto.SignPrivateKey",
 			args: []arg{in("digest", d)},
 			call: func(a [][]byte) outcome {
 				return guarded(func() outcome {
@@ -703,7 +719,7 @@ func sigScenarios() (out []*scenario) {
 	}
 	verify := func(alg, path string, key jwk.Key, d, sig []byte, fam string) *scenario {
 		return &scenario{
-			id: fmt.Sprintf("crypto.VerifyPublicKey|%s|%s|len=%d", alg, path, len(d)), site: "VerifyPublicKey-" + fam, fn: "crypto.VerifyPublicKey", expect: "any",
+			id: fmt.Sprintf("crypto.VerifyPublicKey|%s|%s|len=%d", alg, path, len(d)), site: "VerifyPublicKey-" + fam, fn: "crypto.VerifyPublicKey",
 			args: []arg{in("digest", d), in("signature", sig)},
 			call: func(a [][]byte) outcome {
 				return guarded(func() outcome {
@@ -779,7 +795,7 @@ func sigPriv(k *cryptokeys.Key) any {
 func parseKeyScenarios() (out []*scenario) {
 	mk := func(name string, raw []byte, ct string) *scenario {
 		return &scenario{
-			id: fmt.Sprintf("crypto.ParseKey|%s|contentType=%q|len=%d", name, ct, len(raw)), site: "ParseKey", fn: "crypto.ParseKey", expect: "any",
+			id: fmt.Sprintf("crypto.ParseKey|%s|contentType=%q|len=%d", name, ct, len(raw)), site: "ParseKey", fn: "crypto.ParseKey",
 			args: []arg{in("raw", raw)},
 			call: func(a [][]byte) outcome {
 				return guarded(func() outcome {
